@@ -16,6 +16,8 @@ package ggql
 
 import (
 	"errors"
+	"reflect"
+	"time"
 	"unsafe"
 )
 
@@ -129,4 +131,33 @@ func formOneErrorResult(err error) map[string]interface{} {
 		em["message"] = err.Error()
 	}
 	return em
+}
+
+// schemaValue is true if v is made of what the schema is made of, scalars,
+// lists and objects, and not of Go types an application has bound to input
+// types. Those can not be written as SDL.
+func schemaValue(v interface{}) bool {
+	switch tv := v.(type) {
+	case []interface{}:
+		for _, m := range tv {
+			if !schemaValue(m) {
+				return false
+			}
+		}
+	case map[string]interface{}:
+		for _, m := range tv {
+			if !schemaValue(m) {
+				return false
+			}
+		}
+	default:
+		if rv := reflect.ValueOf(v); rv.IsValid() {
+			switch rv.Kind() {
+			case reflect.Ptr, reflect.Struct, reflect.Slice, reflect.Map:
+				_, isTime := v.(time.Time)
+				return isTime
+			}
+		}
+	}
+	return true
 }
